@@ -73,6 +73,11 @@ enum M {
     SEmit,
 }
 
+/// crash image request for the next `run_leaf`: (index of the coarse scheduling step at which the data dir and
+/// the workspace are copied - every actor is parked at a hook point then -, destination, number of coarse
+/// steps seen).  What the copy holds is what a killed authority leaves behind at that point of the schedule.
+static CRASH: std::sync::Mutex<Option<(usize, std::path::PathBuf, usize)>> = std::sync::Mutex::new(None);
+
 /// the frames ONE run of the stub input / of the `ls` tool envelope writes (measured once per harness
 /// run on an un-raced session; the model's session actor emits exactly these kinds)
 static RUN_CODES: std::sync::OnceLock<[Vec<u64>; 2]> = std::sync::OnceLock::new();
@@ -412,6 +417,7 @@ fn run_leaf(setup: &[Setup], actors: &[Vec<Op>], choose: &mut dyn FnMut(usize, u
     let mut sticky: Option<usize> = None;
     let mut choices = vec![];
     let mut widths = vec![];
+    let crash_src = env.root.clone();
     let store_p = env.store.clone();
     let holding3 = holding.clone();
     // decision points: the cont.* / start / sess.before_emit points, and - only when a continuity append
@@ -469,6 +475,12 @@ fn run_leaf(setup: &[Setup], actors: &[Vec<Op>], choose: &mut dyn FnMut(usize, u
                 sticky = Some(*a);
                 granted(*a, p);
                 return Some(*a);
+            }
+            if let Some((at, dest, seen)) = CRASH.lock().unwrap().as_mut() {
+                if *seen == *at {
+                    let _ = rv::sched::copy_dir(&crash_src, dest);
+                }
+                *seen += 1;
             }
             let i = if en.len() > 1 {
                 let i = choose(choices.len(), en.len()).min(en.len() - 1);
@@ -1311,6 +1323,66 @@ fn session_race(ctx: &mut Ctx, wsg: &mut CaseWriter, n: usize, stepped: bool, ro
     drop(rt);
 }
 
+/// "histories that cross an authority restart": the authority dies at a chosen point of a schedule (image of
+/// data dir + workspace taken while every actor is parked: a log line without its sidecar line, a child with its
+/// creation frame and no lineage frame, an index entry without frames, ..), a new authority is started on the
+/// image and every thread of the image gets appends (message, run frames, a branch, a compaction job).
+/// Oracle only: every stream of the image's final log is 0,1,2,.. in file order, validated replay succeeds.
+fn crash_then_continue(ctx: &mut Ctx, case: &Case, r: &mut Rng, at: usize) {
+    if ctx.stop() {
+        return;
+    }
+    let image = Scratch::new("c01x");
+    *CRASH.lock().unwrap() = Some((at, image.path().to_path_buf(), 0));
+    let _ = run_leaf(&case.setup, &case.actors, &mut |_i, w| r.below(w as u64) as usize);
+    let seen = CRASH.lock().unwrap().take().map(|c| c.2).unwrap_or(0);
+    ctx.res.evaluations += 1;
+    ctx.leaves += 1;
+    ctx.res.bump("kind=crash_at_schedule_point_then_restart");
+    if seen <= at || !image.path().join("data").join("events.jsonl").exists() {
+        ctx.res.bump("crash_point_beyond_schedule");
+        return;
+    }
+    ctx.res.oracle_checks += 1;
+    let env = Env::open(image.path());
+    let crashed = env.log_bytes();
+    // the image may end in a partial line only if the log writer was caught mid-append: it never is (actors
+    // park outside the write), so the image must parse
+    let hs0 = match parse_log(&crashed) {
+        Ok(h) => h,
+        Err(e) => {
+            ctx.res.oracle_violations.push(OracleViolation { case_id: -1, what: format!("crash image at step {at}: {e}"), class: "partial_frame".into(), replay: json!({"crash_at": at, "case": case.json(&[])}) });
+            return;
+        }
+    };
+    let ids = created_ids(&hs0);
+    let _ = env.store.ensure_default();
+    for (k, id) in ids.iter().enumerate() {
+        let _ = append_kind(&env.store, id, 4, k as u64);
+        let _ = append_kind(&env.store, id, *r.pick(&[5u64, 13, 14, 8]), k as u64);
+    }
+    if let Some(id) = ids.first() {
+        let _ = env.store.branch(id, None, None, None, "user".into(), "harness".into());
+        let _ = env.store.compaction_auto_v1(id, CompactionAutoV1Request { stride_messages: Some(1), max_new_checkpoints: Some(1), dry_run: Some(false), actor_id: "user".into(), origin: "harness".into() });
+        let _ = append_kind(&env.store, id, 4, 77);
+    }
+    let after = env.log_bytes();
+    let fresh = rip_log::EventLog::new(env.log_path()).and_then(|l| l.replay_validated().map(|_| ()));
+    let v = parse_log(&after).map_err(|e| e.to_string()).and_then(|hs| match first_order_violation(&hs) {
+        Some(v) => Err(v),
+        None => Ok(hs.len()),
+    });
+    ctx.res.bump_by("crash_image_frames", hs0.len() as u64);
+    let prefix_ok = after.len() >= crashed.len() && after[..crashed.len()] == crashed[..];
+    if v.is_err() || fresh.is_err() || !prefix_ok {
+        let what = format!("authority killed at scheduling step {at} of {seen}, restarted on the image, appends to every thread: {}", v.err().or_else(|| fresh.err().map(|e| e.to_string())).unwrap_or_else(|| "the image's log is no longer a prefix".into()));
+        if ctx.res.oracle_violations.len() < 20 {
+            ctx.res.oracle_violations.push(OracleViolation { case_id: -1, what, class: "order_broken_after_crash_restart".into(), replay: json!({"crash_at": at, "case": case.json(&[])}) });
+        }
+        ctx.res.bump("violation=order_broken_after_crash_restart");
+    }
+}
+
 /// the frame kinds one un-raced run of the stub input / the `ls` envelope writes
 fn calibrate_run(tool: bool) -> Vec<u64> {
     let scratch = Scratch::new("c01k");
@@ -1615,6 +1687,12 @@ fn main() {
     let mut r = Rng::new(a.seed);
     let thorough = a.thorough();
 
+    // `--only crash` (self-tests): nothing but the crash-image group
+    let only_crash = a.extra.get("only").map(|v| v == "crash").unwrap_or(false);
+    'pre: {
+    if only_crash {
+        break 'pre;
+    }
     // ---- corpus: S3 (stale prefix + restart)
     for x in [Fault::CutLine, Fault::Rollback(2)] {
         let s3 = Case {
@@ -1666,6 +1744,33 @@ fn main() {
         }
     }
 
+    }
+    // ---- the authority dies at a point of a schedule (every coarse step of a few cases, sampled ones of random cases)
+    {
+        let cases = vec![
+            Case { setup: vec![Setup::Msg { th: 0 }], actors: vec![vec![Op::Branch { th: 0 }], vec![Op::PostNewest]] },
+            Case { setup: vec![Setup::Msg { th: 0 }, Setup::Msg { th: 0 }], actors: vec![vec![Op::Handoff { th: 0 }, Op::Append { t: 4, th: 1 }], vec![Op::Append { t: 13, th: 0 }]] },
+            Case { setup: vec![Setup::Msg { th: 0 }, Setup::Msg { th: 0 }, Setup::Msg { th: 0 }], actors: vec![vec![Op::CompactionAuto { th: 0, schedule: true }], vec![Op::Append { t: 4, th: 0 }]] },
+        ];
+        for case in &cases {
+            for at in 0..(if thorough { 60 } else { 24 }) {
+                crash_then_continue(&mut ctx, case, &mut r, at);
+            }
+            ctx.mark("crash_at_schedule_point_then_restart");
+        }
+        for _ in 0..(if thorough { 300 } else { 30 }) {
+            let (setup, threads) = gen_setup(&mut r, false);
+            let na = r.range(2, 3) as usize;
+            let actors: Vec<Vec<Op>> = (0..na).map(|_| (0..r.range(1, 2)).map(|_| gen_op(&mut r, threads)).collect()).collect();
+            let at = r.below(30) as usize;
+            crash_then_continue(&mut ctx, &Case { setup, actors }, &mut r, at);
+        }
+        ctx.mark("crash_at_schedule_point_then_restart");
+    }
+
+    if only_crash {
+        ctx.deadline = std::time::Instant::now();
+    }
     // ---- corpus S5 (child lineage frame vs a post to the freshly listed child)
     let s5 = Case { setup: vec![Setup::Msg { th: 0 }], actors: vec![vec![Op::Branch { th: 0 }], vec![Op::PostNewest]] };
     exhaustive(&mut ctx, &s5, if thorough { 1500 } else { 400 }, "corpus_s5_branch_vs_post_newest");
